@@ -7,7 +7,6 @@ import (
 	"net"
 	"net/http"
 	"os"
-	"regexp"
 	"strings"
 	"sync"
 	"time"
@@ -142,8 +141,21 @@ func Run(c *common.Ctx) error {
 		px.Addr = "localhost:0"
 		// one anchored expression and one glob-style suffix expression each (what litefs.yml users write): the
 		// expressions are matched against the path, never against the query string
-		px.Passthroughs = []*regexp.Regexp{regexp.MustCompile(`^/pass/.*$`), regexp.MustCompile(`\.png$`)}
-		px.AlwaysForward = []*regexp.Regexp{regexp.MustCompile(`^/fwd/.*$`), regexp.MustCompile(`\.rpc$`)}
+		// compiled the way cmd/litefs compiles the patterns of litefs.yml
+		for _, pat := range []string{"/pass/*", "*.png"} {
+			re, err := lfshttp.CompileMatch(pat)
+			if err != nil {
+				return nil, nil, err
+			}
+			px.Passthroughs = append(px.Passthroughs, re)
+		}
+		for _, pat := range []string{"/fwd/*", "*.rpc"} {
+			re, err := lfshttp.CompileMatch(pat)
+			if err != nil {
+				return nil, nil, err
+			}
+			px.AlwaysForward = append(px.AlwaysForward, re)
+		}
 		px.PollTXIDInterval = time.Millisecond
 		px.PollTXIDTimeout = 400 * time.Millisecond
 		px.PrimaryRedirectTimeout = 150 * time.Millisecond
@@ -190,7 +202,7 @@ func Run(c *common.Ctx) error {
 	var cases []reqCase
 	for _, role := range []string{"primary", "replica", "noprimary"} {
 		for _, m := range []string{"GET", "HEAD", "POST", "PUT", "DELETE", "PATCH"} {
-			for _, path := range []string{"/app", "/pass/x", "/fwd/x", "/litefs/health", "/app?thumb=logo.png", "/img/logo.png", "/app?call=x.rpc", "/do/x.rpc"} {
+			for _, path := range []string{"/app", "/pass/x", "/fwd/x", "/litefs/health", "/app?thumb=logo.png", "/img/logo.png", "/app?call=x.rpc", "/do/x.rpc", "/app%0A/pass/x", "/app%0A/fwd/x"} {
 				for _, ck := range []string{"absent", "malformed", "zero", "behind", "equal", "ahead"} {
 					for _, there := range []bool{true, false} {
 						if !there && ck != "ahead" && ck != "absent" {
@@ -345,6 +357,50 @@ func Run(c *common.Ctx) error {
 		_ = el
 	}
 	c.Sample(map[string]any{"request": cases[0], "cases": len(cases)})
+	// a replica under a static lease: cmd/litefs gives every node of such a cluster the primary's hostname as the
+	// lease's hostname, so "the primary's hostname is mine" says nothing about being primary
+	{
+		sdir := dir + "-static"
+		defer os.RemoveAll(sdir)
+		st := litefs.NewStore(sdir, false)
+		st.Leaser = litefs.NewStaticLeaser(false, "primaryhost", p.Server.URL())
+		st.Client = lfshttp.NewClient()
+		st.Exit = func(int) {}
+		st.ReconnectDelay = 20 * time.Millisecond
+		st.RetentionMonitorInterval = 0
+		if err := st.Open(); err != nil {
+			return fmt.Errorf("static-lease replica: %w", err)
+		}
+		defer st.Close()
+		deadline := time.Now().Add(8 * time.Second)
+		for time.Now().Before(deadline) && pos(st, "db") != pos(p.Store, "db") {
+			time.Sleep(5 * time.Millisecond)
+		}
+		px, app, err := mkProxy(st, "db")
+		if err != nil {
+			return err
+		}
+		defer px.Close()
+		defer app.srv.Close()
+		for _, m := range []string{"POST", "PUT", "DELETE", "PATCH"} {
+			req, _ := http.NewRequest(m, px.URL()+"/app", strings.NewReader(""))
+			resp, err := client.Do(req)
+			c.Evaluations++
+			c.Distinct("static-lease-replica:" + m)
+			rep := map[string]any{"kind": "proxy-static-lease-replica", "method": m}
+			if err != nil {
+				c.Violate("C19:static-lease-replica:no-response", fmt.Sprintf("proxy did not answer: %v", err), rep)
+				continue
+			}
+			_, _ = io.Copy(io.Discard, resp.Body)
+			resp.Body.Close()
+			if arr := app.take(); len(arr) > 0 {
+				c.Violate("C19:static-lease-replica:write-on-replica", fmt.Sprintf("%s /app on a replica under a static lease (same lease hostname as the primary) was forwarded to the local application (status %d)", m, resp.StatusCode), rep)
+			} else if resp.Header.Get("fly-replay") == "" {
+				c.Violate("C19:static-lease-replica:no-replay", fmt.Sprintf("%s /app on a replica under a static lease was not answered with a redirect to the primary (status %d)", m, resp.StatusCode), rep)
+			}
+		}
+	}
 	// the tracked database appears after the proxy has already served requests: a proxy started on a replica before
 	// the database exists behaves, once it exists, like one started afterwards
 	{
